@@ -95,6 +95,17 @@ def check(ctx):
         ctx.ob('C08.P2', 'purge|polarity', bool(good), site(purge, pt['cs']),
                'purge keeps a tombstone exactly when the predicate is false and reports it purged exactly when true' if good else
                'purge keeps / purges on the wrong edge of the cut-off predicate')
+    # every tombstone taken out of the map is either put back or reported (no iteration drops one silently)
+    nx = [(b, t) for b, t in calls if cname(t) == 'core::iter::traits::iterator::Iterator::next']
+    if nx:
+        flow_p = Flow(purge)
+        re_n = ResultEdges(purge, flow_p, nx[0][0], include_option=True)
+        starts = [e[1] for e in re_n.ok]
+        sinks = [b for b, t in calls if cname(t) in ('std::collections::hash::map::HashMap::insert', 'alloc::vec::Vec::push')]
+        every = bool(starts) and nx[0][0] not in purge.reachable_from(starts, avoid=sinks)
+        ctx.ob('C08.P2', 'purge|every-tombstone-kept-or-reported', every, site(purge),
+               'every tombstone taken out of the map is either re-inserted or returned as purged' if every else
+               'an iteration of the purge loop can drop a tombstone without keeping or reporting it: storage keeps a tombstone the set forgot')
     # strictness of the predicate
     pb_ = facts.body(NV + PRED)
     found = False
